@@ -872,3 +872,58 @@ def c08_oracle(case, r):
             seen.add(sig)
             out.append((sig, text))
     return out
+
+
+# ---------------------------------------------------------------------------------------------- C11
+FAULT_TEXT = {"one": "backend-fault", "multi": "backend-fault", "unicode": "backend-fault", "empty": ""}
+FAULT_CLASS = {"one": "FaultA", "multi": "FaultMulti", "unicode": "UnicodeEncodeError", "empty": "FaultEmpty"}
+
+
+def c11_oracle(case, r):
+    hits = []
+    fault = case.get("fault")
+    oc = r.get("outcome") or ["?"]
+    if oc[0] in ("hang", "sched_abort"):
+        return [("run-hangs-after-backend-failure", "the run does not terminate after a backend raised: %s" % (oc[1][:200],))]
+    if not fault:
+        return hits
+    trace = r.get("trace") or []
+    fired = sum(1 for a in trace if a[1] == "handle")
+    # did the fault trigger at all? (the backend raises when it handles its k-th event)
+    triggered = any(a[1] == "flag" and a[2] == "pending" for a in trace)
+    if not triggered:
+        if len(r.get("events") or []) > fault["at"]:
+            hits.append(("backend-failure-not-recorded", "the backend raised at event %d but no failure is pending" % fault["at"]))
+        return hits
+    # never silent: an error is raised to the caller, carrying the original text
+    if oc[0] != "raised":
+        hits.append(("backend-failure-silent", "a backend raised %s at event %d and the run ended with %s" % (FAULT_CLASS[fault["cls"]], fault["at"], oc[:2])))
+    else:
+        text = oc[2] if len(oc) > 2 else ""
+        want = FAULT_TEXT[fault["cls"]]
+        if want and want not in text:
+            hits.append(("error-text-lost", "the error raised to the caller (%s) does not carry the original text %r: %r" % (oc[1], want, text[:120])))
+        if FAULT_CLASS[fault["cls"]] not in text and FAULT_CLASS[fault["cls"]] != oc[1]:
+            hits.append(("error-class-lost", "the error raised to the caller (%s) mentions neither the class nor the traceback of %s" % (oc[1], FAULT_CLASS[fault["cls"]])))
+    # no further test body is started once the failure is visible (= recorded before the worker took the task)
+    vis = next(i for i, a in enumerate(trace) if a[1] == "flag" and a[2] == "pending")
+    take_idx = {}
+    for i, a in enumerate(trace):
+        if a[1] == "take":
+            take_idx[tuple(a[3])] = i
+        elif a[1] == "body_begin":
+            lab = ("TestTask", a[2])
+            if take_idx.get(lab, -1) > vis:
+                hits.append(("body-started-after-backend-failure", "the body of %s was started after the backend failure was recorded" % a[2]))
+    # teardowns of completed setups still run (reuse the C03 oracle's teardown checks on the trace)
+    fake = dict(r)
+    fake["outcome"] = ["returned", False]
+    for sig, text in c03_oracle(case, fake):
+        if sig in ("fixture-never-torn-down", "teardown-suite-never-executed", "fixture-torn-down-before-consumer-finished"):
+            hits.append((sig, text))
+    seen, out = set(), []
+    for sig, text in hits:
+        if sig not in seen:
+            seen.add(sig)
+            out.append((sig, text))
+    return out
